@@ -190,7 +190,12 @@ class SimT(SimBase):
         self._old_time = esocket.time
         esocket.time = vsched.VTimeModule(self.sched)
         self.esocket = esocket
-        self.server.on('connect', self._h_connect)
+        def hconnect(sid, environ):
+            # an application may greet the client from its connect handler
+            if self.cfg.get('connect_send'):
+                self.server.send(sid, self.cfg['connect_send'])
+            return self._h_connect(sid, environ)
+        self.server.on('connect', hconnect)
         self.server.on('message', self._h_message)
         self.server.on('disconnect', self._h_disconnect)
         self.app = engineio.WSGIApp(self.server, **(app_kwargs or {}))
